@@ -38,6 +38,10 @@ CHECKS = {
    technique='three exhaustive layers: all insert/delete words on the lock map vs. a multiset; explicit-state BFS over trie histories with up to 3 iterators; explicit-state BFS over InstanceState host-operation histories incl. interrupts vs. a handle/generation model',
    text='(1) every word up to depth 6/8 of insert/delete on the reference-counted prefix map, all queries after every step; (2) the trie history search with a lock-centred alphabet (iterators on equal, nested and disjoint prefixes; modifications at, under, above and beside them; checkpoint/rollback/commit): modifications under a live prefix are refused and leave the state unchanged, iterators yield exactly their snapshot in order, delete_iter releases exactly one lock; (3) the contract-visible InstanceState operations (lookup/create/delete/delete_prefix/iterate/next/delete/key/read/write/resize, foreign handles) interleaved with interrupts (no change, nested call rolled back, nested call committed) against a model of handles, incarnations and generation counters with the documented return encodings.',
    note='Trusted: hooks H1/H4 (forwarding only), the models in /verif/engines/mc-state. Contract-level end-to-end (through Wasm) is C14.'),
+ 'C06': dict(engine='mc-crypto', ref='DESIGN.md §5 C06',
+   technique='exhaustive enumeration of access structures x signature maps against the threshold policy; complete bit-flip neighbourhoods of signed transactions; recomputation of digests, sizes and energies from bytes; all update signer sequences',
+   text='252 access structures (credential indices from {0,1,255}, key sets / thresholds incl. thresholds above the number of keys, account threshold 1..3) x every signature map with <=3 (thorough 4) populated slots where each slot (also unregistered credential 7 / key 9) is valid, valid for another message, valid under another key, or bit-flipped: verify_data_signature and verify_signature_transaction_sign_hash must equal the 4-line policy. For 10 payload fixtures x a header alphabet: payload_size, sign hash (v0 and v1 prefix form), block-item hash, 60-byte header and the energy of construct::* equal the documented functions of the bytes; signing with sufficient keys verifies; every flipped bit of header||payload and of the signature part, every replaced registered key, a moved sponsor address, swapped sender/sponsor signatures, a missing sponsor signature and wrong key sets fail. Chain updates: every signer sequence (<=2/3 of 5 keys, with repetition, unauthorised and unregistered keys) is accepted by find_authorized_keys iff distinct, registered and authorised; the produced signatures verify only under their own key over SHA-256(header||payload) and for no flipped bit.',
+   note='Thresholds 1..3 / indices {0,1,255} stand for 1..255. The library has no verifier for update instructions (the node verifies), so signer selection and per-key signatures over the documented digest are checked.'),
  'C07': dict(engine='mc-crypto', ref='DESIGN.md §5 C07',
    technique='exhaustive enumeration of statement shapes x witness alphabet x transcripts x contexts per sigma protocol with the complete single-component perturbation set; explicit enumeration of all transcript operation sequences up to depth 3/4 for framing injectivity',
    text='For dlog, com_eq, com_eq_different_groups, com_enc_eq, com_mult, com_lin, com_ineq, aggregate_dlog, vcom_eq, com_eq_sig, ps_sig_known (every known/public/committed pattern of length <=2/3), AndAdapter and ReplicateAdapter: every witness from {random, 0, 1, r-1}, repeated generators, vector sizes 0/1/2/5, under the legacy and the V1 transcript and contexts {"", "a", "ab"}: the proof verifies; it fails under every other context, the other transcript protocol, every single replaced public component (another element, identity, negation, double; vector entries swapped / dropped / appended), another valid instance, every flipped bit of the challenge and of the serialised response. Transcript framing: all sequences of <=3/4 operations over label/message/messages/each/final with label-determined types give pairwise distinct challenges (V1), modulo the API-defined identity final = message.',
@@ -73,7 +77,7 @@ manifest = {
  "engines": [
    {"name": "mc-wasm", "path": "/verif/engines/mc-wasm", "serves_properties": ["C01", "C02", "C09", "C13"],
     "kind_free_text": "bounded exhaustive Wasm program enumeration on the real concordium-wasm engine vs. reference validator/interpreter"},
-   {"name": "mc-crypto", "path": "/verif/engines/mc-crypto", "serves_properties": ["C07", "C11", "C12", "C19", "C20"],
+   {"name": "mc-crypto", "path": "/verif/engines/mc-crypto", "serves_properties": ["C06", "C07", "C11", "C12", "C19", "C20"],
     "kind_free_text": "exhaustive configuration / boundary-input / single-component-perturbation enumeration on the real cryptographic code vs. truth predicates"},
    {"name": "mc-state", "path": "/verif/engines/mc-state", "serves_properties": ["C03", "C04", "C15"],
     "kind_free_text": "explicit-state search over operation histories of the real contract-state trie vs. ordered-map model and independent hash"},
